@@ -29,6 +29,10 @@ type ftr struct {
 	float string // "Rat" or "Float"
 	fn    string
 	uses  bool // function mentions float64
+	// method translation (methods.go): receiver object and the value that ends a body
+	recv types.Object
+	end  func() string            // value of the function when control reaches the end of the body (nil: error)
+	ret  func(rs []string) string // how a `return rs…` is rendered (nil: plain tuple)
 }
 
 type unsupported struct{ msg string }
@@ -195,6 +199,11 @@ func (t *ftr) expr(e ast.Expr) string {
 		return t.binary(x)
 	case *ast.CallExpr:
 		return t.call(x)
+	case *ast.SelectorExpr:
+		if f, ok := t.recvField(x); ok {
+			t.leanType(x, t.typeOf(x)) // basic types only
+			return f
+		}
 	}
 	t.fail(e, "unsupported expression %T", e)
 	return ""
@@ -318,11 +327,11 @@ func (t *ftr) call(x *ast.CallExpr) string {
 			if pn, ok := t.c.info.Uses[id].(*types.PkgName); ok {
 				switch pn.Imported().Path() + "." + f.Sel.Name {
 				case "math.Min":
-					return fold("Gen.gmin")
+					return fold("Gen.gmin" + t.fsuffix())
 				case "math.Max":
-					return fold("Gen.gmax")
+					return fold("Gen.gmax" + t.fsuffix())
 				case "math.Abs":
-					return "(Gen.gabs " + args[0] + ")"
+					return "(Gen.gabs" + t.fsuffix() + " " + args[0] + ")"
 				case "math/bits.TrailingZeros64":
 					return "(Gen.tz64 " + args[0] + ")"
 				case "math/bits.Len32":
@@ -371,14 +380,28 @@ func terminates(stmts []ast.Stmt) bool {
 
 func (t *ftr) stmts(list []ast.Stmt, ind string) string {
 	if len(list) == 0 {
+		if t.end != nil {
+			return ind + t.end()
+		}
 		panic(unsupported{t.fn + ": control reaches end without return"})
 	}
 	s, rest := list[0], list[1:]
 	switch x := s.(type) {
+	case *ast.ExprStmt:
+		if t.isRecvMutexCall(x.X) {
+			return t.stmts(rest, ind)
+		}
+	case *ast.DeferStmt:
+		if t.isRecvMutexCall(x.Call) {
+			return t.stmts(rest, ind)
+		}
 	case *ast.ReturnStmt:
 		var rs []string
 		for _, r := range x.Results {
 			rs = append(rs, t.expr(r))
+		}
+		if t.ret != nil {
+			return ind + t.ret(rs)
 		}
 		if len(rs) == 1 {
 			return ind + rs[0]
@@ -390,8 +413,17 @@ func (t *ftr) stmts(list []ast.Stmt, ind string) string {
 		}
 		out := ""
 		for i := range x.Lhs {
-			id, ok := x.Lhs[i].(*ast.Ident)
-			if !ok {
+			var id *ast.Ident
+			var lhsName string
+			if sel, ok := x.Lhs[i].(*ast.SelectorExpr); ok {
+				f, ok := t.recvField(sel)
+				if !ok || x.Tok != token.ASSIGN {
+					t.fail(x, "assignment to a selector that is not a receiver field")
+				}
+				id, lhsName = sel.Sel, f
+			} else if id, ok = x.Lhs[i].(*ast.Ident); ok {
+				lhsName = leanName(id.Name)
+			} else {
 				t.fail(x, "assignment to non-identifier")
 			}
 			var rhs string
@@ -401,18 +433,29 @@ func (t *ftr) stmts(list []ast.Stmt, ind string) string {
 			default:
 				t.fail(x, "assignment operator %s", x.Tok)
 			}
-			out += fmt.Sprintf("%slet %s : %s := %s\n", ind, leanName(id.Name), t.leanType(id, t.typeOf(x.Rhs[i])), rhs)
+			out += fmt.Sprintf("%slet %s : %s := %s\n", ind, lhsName, t.leanType(id, t.typeOf(x.Rhs[i])), rhs)
 		}
 		return out + t.stmts(rest, ind)
 	case *ast.IfStmt:
 		if x.Init != nil {
 			t.fail(x, "if with init")
 		}
-		if !terminates(x.Body.List) {
-			t.fail(x, "if body does not end in return")
+		// a branch that does not end in return falls through to `rest`: the continuation is
+		// duplicated into it (re-assignments become shadowing lets; a `:=` there is rejected
+		// because flattening would widen its scope).
+		join := func(br []ast.Stmt) string {
+			if terminates(br) {
+				return t.stmts(br, ind+"  ")
+			}
+			for _, b := range br {
+				if as, ok := b.(*ast.AssignStmt); ok && as.Tok == token.DEFINE {
+					t.fail(as, "`:=` inside a branch that falls through")
+				}
+			}
+			return t.stmts(append(append([]ast.Stmt{}, br...), rest...), ind+"  ")
 		}
 		cond := t.expr(x.Cond)
-		thenS := t.stmts(x.Body.List, ind+"  ")
+		thenS := join(x.Body.List)
 		var elseS string
 		if x.Else != nil {
 			var el []ast.Stmt
@@ -421,14 +464,10 @@ func (t *ftr) stmts(list []ast.Stmt, ind string) string {
 			} else {
 				el = []ast.Stmt{x.Else}
 			}
-			if terminates(el) {
-				if len(rest) != 0 {
-					t.fail(x, "dead code after if/else")
-				}
-				elseS = t.stmts(el, ind+"  ")
-			} else {
-				t.fail(x, "else branch does not end in return")
+			if terminates(x.Body.List) && terminates(el) && len(rest) != 0 {
+				t.fail(x, "dead code after if/else")
 			}
+			elseS = join(el)
 		} else {
 			elseS = t.stmts(rest, ind+"  ")
 		}
@@ -545,6 +584,7 @@ func (c *ctx) genFuncs() string {
 			b.WriteString(s + "\n")
 		}
 	}
+	c.genMethods(&b)
 	b.WriteString("end Gen\n")
 	return b.String()
 }
